@@ -65,6 +65,7 @@ fn replay_comp(check_filters: bool) {
                 big_values: case["big_values"].as_bool().unwrap_or(false),
                 sweep_len: case["sweep_len"].as_u64().map(|x| x as usize),
                 long_run: case["long_run"].as_u64().map(|x| x as usize),
+                wide: case["wide"].as_array().map(|a| (a[0].as_u64().unwrap_or(0) as usize, a[1].as_u64().unwrap_or(0) as usize)),
             };
             table_case(&c, &shm, check_filters, 3);
         }
@@ -115,6 +116,7 @@ pub fn c13(tier: &str) -> ! {
     let t = tier == "thorough";
     let mut cases = if t { table_cases(4, &[1, 16, 64, 256, 4096, 1 << 20], 2) } else { table_cases(3, &[1, 16, 64, 256, 1 << 20], 2) };
     cases.extend(long_run_cases());
+    cases.extend(wide_cases());
     let cases = Arc::new(cases);
     let cursor_len = if t { 3 } else { 3 };
     let shm = Arc::new(Shm::new(1 << 10, 16 << 20));
@@ -140,7 +142,7 @@ pub fn c13(tier: &str) -> ! {
     rep.cov("point_probes", json!(shm.get(C_USER)));
     rep.cov("cursor_steps_checked", json!(shm.get(C_USER + 1)));
     rep.cov("max_blocks_in_a_table", json!(shm.get(C_MAX_FILE_ENTRIES)));
-    rep.cov("rule", json!("one evaluation = one table file built with the real TableBuilder from a sorted entry set (every subset of <= 3 (thorough 4) of 8 boundary user keys {'', 00, a, a00, ab, b, ff, ffff}, each key with one of 5 version patterns of puts/deletes, value sizes from {0,1,100,5000}, max_block_size in {1,16,64,256,1 MiB} (thorough also 4096); plus long runs of 15..100 shared-prefix keys so that blocks hold more entries than the restart interval of 16, block sizes {64,256,1024,1 MiB}) and read with the real Table: forward and backward iteration equal the entries; for every probe (17 keys incl. separators x every sequence bound 0..n+2 and MAX) seek lands on the first entry not less than the target and get answers Value / Deleted / NotInFile like the vector model; every cursor program of length <= 2 (thorough 3) over {first,last,next,prev,seek(entry)} follows the model cursor. distinct_nontrivial = tables with more than one data block or more than 3 entries"));
+    rep.cov("rule", json!("one evaluation = one table file built with the real TableBuilder from a sorted entry set (every subset of <= 3 (thorough 4) of 8 boundary user keys {'', 00, a, a00, ab, b, ff, ffff}, each key with one of 5 version patterns of puts/deletes, value sizes from {0,1,100,5000}, max_block_size in {1,16,64,256,1 MiB} (thorough also 4096); plus long runs of 15..100 shared-prefix keys so that blocks hold more entries than the restart interval of 16, block sizes {64,256,1024,1 MiB}; plus keys of length {1,126..129,255,256,16382..16385} that share all but their last byte, with values of length {0,1,127,128,16383,16384,70000}: the boundaries of the varint coding of shared / unshared / value lengths) and read with the real Table: forward and backward iteration equal the entries; for every probe (17 keys incl. separators x every sequence bound 0..n+2 and MAX) seek lands on the first entry not less than the target and get answers Value / Deleted / NotInFile like the vector model; every cursor program of length <= 2 (thorough 3) over {first,last,next,prev,seek(entry)} follows the model cursor. distinct_nontrivial = tables with more than one data block or more than 3 entries"));
     for c in cases.iter().step_by((cases.len() / 3).max(1)).take(3) {
         rep.cov_push("samples", table_case_json(c));
     }
@@ -170,6 +172,7 @@ pub fn c14(tier: &str) -> ! {
     let mut cases = if t { table_cases(3, &[1, 16, 64, 256, 1 << 20], 1) } else { table_cases(2, &[1, 16, 256, 1 << 20], 1) };
     cases.extend(filter_table_cases());
     cases.extend(long_run_cases());
+    cases.extend(wide_cases());
     let cases = Arc::new(cases);
     shm.counter(C_NEXT_TASK).store(0, std::sync::atomic::Ordering::SeqCst);
     shm.counter(C_TASKS_DONE).store(0, std::sync::atomic::Ordering::SeqCst);
@@ -199,7 +202,7 @@ pub fn c14(tier: &str) -> ! {
     rep.cov("bloom_membership_checks", json!(shm.get(C_USER + 3)));
     rep.cov("tables_checked", json!(cases.len()));
     rep.cov("block_filter_checks", json!(shm.get(C_USER + 2)));
-    rep.cov("rule", json!("(i) one evaluation = one filter created by the public BloomFilterPolicy for a key multiset (all multisets of size 0..3 over the 40 byte strings of length 0..3 over {00,61,ff}; generated sets of 10/100/1000(/5000) keys with and without duplicates) for each bits_per_key in 1..=64 u {100, 1000} (thorough 1..=128 u {200,255,256,1000,4096}, sets up to 20000 keys); every member must answer Ok(true), also when the filter is read by a policy constructed with another bits_per_key (the probe count travels in the filter). (ii) one evaluation = one table (C13's sets plus tables with 3000-byte values and 1-byte .. 1 MiB blocks): for every data block and every user key stored in it the filter block consulted with the block's offset answers 'may match', and get finds every stored (key, seq). distinct_nontrivial = filters over >= 2 keys plus tables with > 1 block or > 3 entries"));
+    rep.cov("rule", json!("(i) one evaluation = one filter created by the public BloomFilterPolicy for a key multiset (all multisets of size 0..3 over the 40 byte strings of length 0..3 over {00,61,ff}; generated sets of 10/100/1000(/5000) keys with and without duplicates) for each bits_per_key in 1..=64 u {100, 1000} (thorough 1..=128 u {200,255,256,1000,4096}, sets up to 20000 keys); every member must answer Ok(true), also when the filter is read by a policy constructed with another bits_per_key (the probe count travels in the filter). (ii) one evaluation = one table (C13's sets incl. the varint-boundary tables, plus tables with 3000-byte values and 1-byte .. 1 MiB blocks): for every data block and every user key stored in it the filter block consulted with the block's offset answers 'may match', and get finds every stored (key, seq). distinct_nontrivial = filters over >= 2 keys plus tables with > 1 block or > 3 entries"));
     rep.cov_push("samples", json!({"bloom": {"bits_per_key": 10, "set": ["\"\"", "\\x00", "a\\xff"]}}));
     for c in cases.iter().rev().take(2) {
         rep.cov_push("samples", table_case_json(c));
